@@ -1,7 +1,6 @@
-// Package internalpkg holds the checks that call the two internal packages of the module under test
-// directly (possible because the harness module path is nested under the module's path): C09 (wide
-// reduction), C11 (map to curve), C12 (base field).
-package internalpkg
+// Package fieldpkg holds C12: the checks that call internal/field directly (possible because the harness module path
+// is nested under the path of the module under test).
+package fieldpkg
 
 import (
 	"bytes"
